@@ -357,6 +357,8 @@ def run(rep, tier):
         rep.call(dispatch_pure, rep, prog, "C13.dispatch-pure")
         rep.call(step_siblings, rep, prog, "C13.step-siblings")
         rep.call(step_count, rep, prog, "C13.step-count")
+        from . import c14
+        rep.call(c14.band_start, rep, prog, "C13.band-start")
         rep.call(no_address_dependence, rep, prog, "C13.no-address-dependence")
         rep.call(loadwidth.guard_adequacy, rep, prog, "C13.row-end", loadwidth.FLOOR.get(cfg, 50))
     if tier == "thorough":
